@@ -99,6 +99,27 @@ pub fn round_keys(key: &[u8; 16]) -> [u32; 32] {
     round_keys_obs(key, None)
 }
 
+/// The key schedule run backwards: the unique 128-bit key whose four consecutive round keys rk[j..j+4] are `four`
+/// (K_i = K_{i+4} ^ T'(K_{i+1} ^ K_{i+2} ^ K_{i+3} ^ CK_i)). Used to craft keys with a chosen round key (0, all ones).
+pub fn key_with_round_keys(j: usize, four: [u32; 4]) -> [u8; 16] {
+    assert!(j <= 28);
+    let mut k = [0u32; 36];
+    // rk[i] = K_{i+4}
+    for t in 0..4 {
+        k[j + 4 + t] = four[t];
+    }
+    for i in (0..j + 4).rev() {
+        let a = k[i + 1] ^ k[i + 2] ^ k[i + 3] ^ ck(i);
+        let b = tau(a);
+        k[i] = k[i + 4] ^ (b ^ b.rotate_left(13) ^ b.rotate_left(23));
+    }
+    let mut key = [0u8; 16];
+    for i in 0..4 {
+        key[4 * i..4 * i + 4].copy_from_slice(&(k[i] ^ FK[i]).to_be_bytes());
+    }
+    key
+}
+
 fn crypt(rk: &[u32; 32], block: &[u8; 16], decrypt: bool, obs: Option<Obs>) -> [u8; 16] {
     let mut obs = obs;
     let mut x = [0u32; 36];
